@@ -169,7 +169,7 @@ def c16b(ctx):
     rm = ub.calls_to(r"Lru::<K>::remove$")
     chk = ub.calls_to(r"Lru::<K>::check_is_in_region$")
     total += len(mv)
-    if len(mv) != 1 or len(chk) != 1 or not rm:
+    if len(mv) < 1 or len(chk) != 1 or not rm:   # one move per way back to probation (won duel; nobody to duel against, D12)
         ctx.fail(o, Site(ub, 0, 0), "anchor missing in Policy::unpin (move_key_to_head_of_region=%d, check_is_in_region=%d, lru.remove=%d)" % (len(mv), len(chk), len(rm)))
     else:
         cbs_u = ub.calls_to(r"core::ops::function::Fn::call$")
@@ -179,7 +179,7 @@ def c16b(ctx):
             tt, ft = df.bool_edges(ub, sw)
             if df.switch_cond(ub, sw).negated:
                 tt, ft = ft, tt
-            bad = ub.must_pass([tt], [mv[0].bb] + [r_.bb for r_ in rm] + [c_.bb for c_ in cbs_u[-1:]])
+            bad = ub.must_pass([tt], [m_.bb for m_ in mv] + [r_.bb for r_ in rm] + [c_.bb for c_ in cbs_u[-1:]])
             if bad:
                 ctx.fail(o, mv[0], "Policy::unpin can return with the un-pinned key still parked in the Pinned region: nothing ever evicts it")
     o.sites = total
@@ -414,9 +414,73 @@ def c16e(ctx):
         ctx.fail(o, "(program)", "expected >= 5 Lru methods that move nodes, found %d" % n)
 
 
+def c16f(ctx):
+    """The policy keeps four intrusive lists (window / probation / protected / pinned).  `peek_least_recent(R)` and
+    `pop_least_recent(R)` answer None for an empty region; an `unwrap` of that answer is a stated belief "R is not empty
+    here".  The belief is justified in the shape of the code only where the path to the unwrap has tested R's own length
+    (`R_len()` feeds a dominating branch) or has already seen `Some` from a peek of the same region.  A belief resting on
+    another region's state ("the key is in Pinned") is not: `on_removed` takes keys out of any region without looking at
+    the others (D12: un-pinning after the owner removed the last probation key panics inside the cache)."""
+    prog = ctx.prog
+    o = ctx.ob("C16.f", "policy/region-head-unwrapped-only-under-its-own-length-test", "K4+K6",
+               "every unwrap of Lru::peek_least_recent / pop_least_recent (R) in the policy is dominated by a branch on R's length or by the Some edge of an earlier peek of R")
+    n = 0
+    for b in prog.all_bodies(["qbice_storage"]):
+        if not b.name.startswith("Policy::"):
+            continue
+        heads = b.calls_to(r"Lru::<K>::(peek|pop)_least_recent$")
+        if not heads:
+            continue
+        ctx.touch(b)
+
+        def region(site):
+            for x in df.origins_of_operand(b, site.node["args"][1]):
+                if x.kind == "agg" and x.site.node["rv"].get("adt", "").endswith("lru::Region"):
+                    return x.site.node["rv"]["vname"]
+            return None
+        for u in b.calls_to(r"Option::<T>::(unwrap|expect)$"):
+            src = [x.site for x in df.origins_of_operand(b, u.node["args"][0]) if x.kind == "call" and x.site in heads]
+            if not src:
+                continue
+            n += 1
+            h = src[0]
+            r = region(h)
+            if r is None:
+                ctx.fail(o, u, "%s: the region of the unwrapped list head cannot be resolved" % b.name)
+                continue
+            ok = False
+            for bb in b.live_blocks:
+                t = b.blocks[bb]["term"]
+                if t["k"] != "switch" or not b.bb_dominates(bb, u.bb) or bb == u.bb:
+                    continue
+                org = df.origins_of_operand(b, t["op"])
+                # (a) a branch on R's own length
+                if any(x.kind == "call" and re.search(r"Lru::<K>::%s_len$" % r.lower(), x.callee() or "") for x in org):
+                    ok = True
+                # (b) the Some edge of an earlier peek of the same region
+                for x in org:
+                    if x.kind == "call" and x.site in heads and x.site != h and region(x.site) == r:
+                        some = [tb for v, tb in t["targets"] if v == "1"] or [t["otherwise"]]
+                        if any(b.edge_dominates((bb, tb), u.bb) for tb in some if tb is not None):
+                            ok = True
+            # (c) an earlier unwrap of a head of the same region on every path here: the belief was already exercised (and is
+            # reported there if unjustified)
+            for u2 in b.calls_to(r"Option::<T>::(unwrap|expect)$"):
+                if u2 != u and b.site_dominates(u2, u) and any(x.kind == "call" and x.site in heads and region(x.site) == r for x in df.origins_of_operand(b, u2.node["args"][0])):
+                    ok = True
+            if not ok:
+                ctx.fail(o, u, "%s unwraps the least-recent key of the %s region without having tested that region's length on the way (the only thing established is the state of "
+                         "another region): on_removed can empty %s behind the policy's back, and the unwrap then panics inside cache maintenance - in the caller's thread, or "
+                         "killing the maintenance thread for good" % (b.name, r, r))
+    o.sites = n
+    if n < 3:
+        ctx.fail(o, "(program)", "expected >= 3 unwrapped region heads in the policy (on_write x2, trim), found %d" % n)
+
+
 def run(ctx):
     ctx.run_clause("C16.e", c16e)
     ctx.run_clause("C16.a", c16a)
     ctx.run_clause("C16.b", c16b)
     ctx.run_clause("C16.c", c16c)
     ctx.run_clause("C16.d", c16d)
+    ctx.run_clause("C16.f", c16f)
